@@ -6,10 +6,6 @@
 SECS=${1:-25}; shift
 IDS="$@"; [ -z "$IDS" ] && IDS=$(ls /verif/seeded)
 WT=/tmp/wt_regress_$$
-# snapshot of the machinery, so that edits in /verif during the run do not mix versions
-SNAP=/tmp/verif_snap_$$
-mkdir -p $SNAP && rsync -a --exclude .build --exclude replays --exclude .git --exclude evidence /verif/ $SNAP/
-export VERIF_HOME=$SNAP
 git -C /repo worktree add -q --detach $WT HEAD || exit 2
 missed=0
 for id in $IDS; do
@@ -26,5 +22,4 @@ for id in $IDS; do
   rm -rf /tmp/vb_$(basename $WT)_regress_${id}_$prop /tmp/vb_$(basename $WT)_regress_${id}_$prop.out /tmp/vb_$(basename $WT)_regress_${id}_$prop.err
 done
 git -C /repo worktree remove --force $WT
-rm -rf $SNAP
 echo "missed=$missed"
